@@ -353,6 +353,9 @@ func (fw *fixedWindow) GetSystemFlow() *resourceTypes.ResourceFlowData {
 }
 
 func (fw *fixedWindow) GetQuotaGroupsCounters() map[string]int64 {
+	// called by the metrics observer while requests create new groups
+	fw.getQuotaLock.Lock()
+	defer fw.getQuotaLock.Unlock()
 	counters := make(map[string]int64)
 	for key, quotaObj := range fw.quotaGroups {
 		counters[key] = quotaObj.GetCounter()
